@@ -90,7 +90,7 @@ def run(ck, F, E):
                     how or "", "a program location is built in %s from a line number (%s) that is neither copied "
                     "from an existing location, nor checked with ProgramLines::has, nor taken from first()/after()/"
                     "the sorted set: INV-LOC can be broken here" % (body.path, show(e)), sp)
-    ck.floor("C11.location construction sites", n_sites, 6)
+    ck.floor("C11.location construction sites", n_sites, 3)
     # NumberedProgramLocation::default() yields line 0 unvalidated: nobody may call it
     dcalls = callers_of(F, "<abasic_core::program::NumberedProgramLocation as core::default::Default>::default")
     ck.require(not dcalls, "C11:ESTABLISH:NumberedProgramLocation::default", "validated construction",
@@ -310,7 +310,7 @@ def is_tokenize_ok_payload(e):
     return inner[0] == "call" and sfx(inner[1], "Tokenizer::remaining_tokens")
 
 
-def classify_line_source(F, body, bb, e):
+def classify_line_source(F, body, bb, e, _depth=0):
     s = strip_expr(e)
     # (a) copy of an existing location's line
     if s[0] == "place" and s[2]:
@@ -346,12 +346,13 @@ def classify_line_source(F, body, bb, e):
                     true_t = t["otherwise"] if 0 in tg else tg.get(1)
                     if true_t is not None and body.dominates(true_t, bb) and true_t != tg.get(0):
                         return "dominated by ProgramLines::has(arg%d) == true" % pi
-        # constructor-style function: every caller's argument must itself be validated
-        if sfx(body.path, "NumberedProgramLocation::new"):
-            cs = callers_of(F, "NumberedProgramLocation::new")
-            if cs and all(classify_line_source(F, cb, c.bb, cb.expr(c.args[pi])) for cb, c in cs):
+        # constructor-style function (NumberedProgramLocation::new, or a private helper that only builds the location):
+        # every caller's argument must itself be validated at the call site
+        if _depth < 3:
+            cs = [(cb, c) for cb in F.bodies.values() for c in cb.calls() if c.callee == body.path]
+            if cs and all(pi < len(c.args) and classify_line_source(F, cb, c.bb, cb.expr(c.args[pi]), _depth + 1) for cb, c in cs):
                 return "constructor; all %d caller(s) pass a validated line" % len(cs)
-            return None
+        return None
     if s[0] == "local" or (s[0] == "place" and s[1][0] == "local"):
         # user variable bound in a loop over the sorted set (`for &line in sorted.iter()`)
         loc = s[1] if s[0] == "local" else s[1][1]
@@ -360,7 +361,7 @@ def classify_line_source(F, body, bb, e):
                 ee = body.rv_expr(d[3])
                 if "sorted_line_numbers" in show(ee) and "next" in show(ee):
                     return "element of sorted_line_numbers iteration"
-                r = classify_line_source(F, body, bb, ee)
+                r = classify_line_source(F, body, bb, ee, _depth)
                 if r:
                     return r
     return None
